@@ -7,6 +7,7 @@ import (
 	"regexp"
 	"strings"
 	"time"
+	"unicode"
 
 	"github.com/prometheus/prometheus/model/labels"
 
@@ -52,6 +53,12 @@ func colonPieces(v string, n int) []string {
 			// detachTypeId trims white space around the name of name{labels}
 			add(strings.TrimSpace(s))
 			add(strings.Trim(strings.TrimSpace(s), "`"))
+			// the selector grammar skips white space before the name only (first part
+			// left-trimmed, last part right-trimmed): one-sided trims are derivations too
+			for _, t := range []string{strings.TrimLeftFunc(s, unicode.IsSpace), strings.TrimRightFunc(s, unicode.IsSpace)} {
+				add(t)
+				add(strings.Trim(t, "`"))
+			}
 		}
 	}
 	return out
